@@ -25,6 +25,9 @@ func init() {
 		add(&thorough, q, 2, 2, 3)
 	}
 	add(&quick, 0, 4, 0, 3)
+	add(&quick, 0, 9, 0, 1025)
+	add(&quick, 2, 10, 0, 1025)
+	add(&thorough, 2, 9, 9, 1025)
 	add(&thorough, 1, 0, 1, 3)
 	add(&thorough, 1, 6, 6, 3)
 	Specs["C09"] = &Spec{
